@@ -1,11 +1,11 @@
 use crate::PackageId;
 use indexmap::IndexMap;
 use petgraph::graph::NodeIndex;
-use std::collections::HashMap;
+use std::collections::{HashMap, HashSet};
 use wac_types::{
     CoreExtern, DefinedType, DefinedTypeId, Enum, Flags, FuncTypeId, InterfaceId, ItemKind,
     ModuleTypeId, PrimitiveType, Record, ResourceId, Type, Types, UsedType, ValueType, Variant,
-    WorldId,
+    World, WorldId,
 };
 use wasm_encoder::{
     Alias, ComponentBuilder, ComponentCoreTypeEncoder, ComponentExportKind,
@@ -374,14 +374,27 @@ impl<'a> TypeEncoder<'a> {
 
         state.push(Encodable::Component(ComponentType::default()));
 
+        // An interface that the world imports itself is imported in full
+        // before anything that depends on it; importing it again as a
+        // dependency would define the same import name twice.
+        let mut imported = HashSet::new();
         for used in world.uses.values() {
+            self.import_explicit_deps(state, world, used.interface, &mut imported);
             self.import_deps(state, used.interface);
         }
 
         self.use_aliases(state, &world.uses, &world.imports);
 
         for (name, kind) in &world.imports {
-            self.import(state, name, *kind);
+            if let ItemKind::Instance(id) = kind {
+                for used in self.0[*id].uses.values() {
+                    self.import_explicit_deps(state, world, used.interface, &mut imported);
+                }
+            }
+
+            if imported.insert(name.as_str()) {
+                self.import(state, name, *kind);
+            }
         }
 
         for (name, kind) in &world.exports {
@@ -396,6 +409,28 @@ impl<'a> TypeEncoder<'a> {
                 index
             }
             _ => panic!("expected the pushed encodable to be a component type"),
+        }
+    }
+
+    /// Imports the interfaces that `id` transitively depends on and that the
+    /// given world imports itself.
+    fn import_explicit_deps<'w>(
+        &self,
+        state: &mut State,
+        world: &'w World,
+        id: InterfaceId,
+        imported: &mut HashSet<&'w str>,
+    ) {
+        for used in self.0[id].uses.values() {
+            self.import_explicit_deps(state, world, used.interface, imported);
+        }
+
+        if let Some(iid) = &self.0[id].id {
+            if let Some((name, kind @ ItemKind::Instance(_))) = world.imports.get_key_value(iid) {
+                if imported.insert(name.as_str()) {
+                    self.import(state, name, *kind);
+                }
+            }
         }
     }
 
